@@ -161,6 +161,9 @@ class Facts:
         self.globals = {}
         self.enums = {}
         seen = set()
+        self.renamed = {}
+        if not os.environ.get('BLOCHSA_NO_CANON'):
+            self._canonicalise(docs)
         for d in docs:
             for f in d['functions']:
                 k = (f['name'], f['file'], f['ln'])
@@ -179,6 +182,126 @@ class Facts:
         for f in self.functions:
             self.by_name.setdefault(f.name, []).append(f)
             self.by_key.setdefault(f.key, []).append(f)
+
+    # ---- canonical names -------------------------------------------------------------------
+    def _canonicalise(self, docs):
+        """Present renamed members / methods / file-local functions under the names the rule modules use (sa/blochsa/canon_names.json,
+        regenerated by sa/gen_canon_names.py).  A canonical name that is gone from its class is matched to a name that is new in that
+        class and has the same type (fields) or signature, return type, constness and kind (methods); several candidates of one
+        fingerprint are paired in declaration order when their numbers agree, otherwise nothing is mapped.  The extracted documents are
+        rewritten in memory (function names, callee names, member references, field lists); `self.renamed` records what was
+        mapped.  Nothing happens when every canonical name is present."""
+        import json as _json
+        p = os.path.join(os.path.dirname(os.path.abspath(__file__)), 'canon_names.json')
+        if not os.path.exists(p):
+            return
+        T = _json.load(open(p))
+        recs = {}
+        funcs = []
+        for d in docs:
+            for r in d['records']:
+                recs.setdefault(r['name'], r)
+            funcs.extend(d['functions'])
+
+        def pair(missing, extra, keyf_m, keyf_x):
+            out = {}
+            groups = {}
+            for m in missing:
+                groups.setdefault(keyf_m(m), [[], []])[0].append(m)
+            for x in extra:
+                k = keyf_x(x)
+                if k in groups:
+                    groups[k][1].append(x)
+            for k, (ms, xs) in groups.items():
+                if ms and len(ms) == len(xs):
+                    for m, x in zip(ms, xs):
+                        out[x[0]] = m[0]
+            return out
+        fmap, mmap, gmap = {}, {}, {}      # (record, new field) → old ; (record, new method) → old ; qualified free fn → old
+        for rname, t in T.get('records', {}).items():
+            r = recs.get(rname)
+            if r is None:
+                continue
+            cur = [(x['name'], x['type']) for x in r.get('fields', [])]
+            can = [tuple(x) for x in t['fields']]
+            miss = [c for c in can if c[0] not in {x[0] for x in cur}]
+            extra = [x for x in cur if x[0] not in {c[0] for c in can}]
+            for new, old in pair(miss, extra, lambda m: m[1], lambda x: x[1]).items():
+                fmap[(rname, new)] = old
+            defs = sorted([f for f in funcs if f.get('cls') == rname and f.get('kind') == 'method'], key=lambda f: (f['file'], f['ln']))
+            seen_d = set()
+            curm = []
+            for f in defs:
+                sh = f['name'].split('::')[-1]
+                k = (sh, f.get('sig', '()'))
+                if k in seen_d:
+                    continue
+                seen_d.add(k)
+                curm.append((sh, f.get('sig', '()'), f.get('ret', ''), bool(f.get('const')), bool(f.get('static'))))
+            canm = [tuple(x[:5]) for x in t['methods']]
+            missm = [c for c in canm if c[0] not in {x[0] for x in curm}]
+            extram = [x for x in curm if x[0] not in {c[0] for c in canm}]
+            for new, old in pair(missm, extram, lambda m: m[1:], lambda x: x[1:]).items():
+                mmap[(rname, new)] = old
+        for rel, fl in T.get('files', {}).items():
+            path = os.path.join(self.repo, rel)
+            cur = sorted([f for f in funcs if f.get('cls') is None and f.get('kind') == 'function' and f['file'] == path], key=lambda f: f['ln'])
+            curk = []
+            seen_d = set()
+            for f in cur:
+                if (f['name'], f.get('sig')) in seen_d:
+                    continue
+                seen_d.add((f['name'], f.get('sig')))
+                curk.append((f['name'], f.get('sig', '()'), f.get('ret', '')))
+            can = [tuple(x) for x in fl]
+            miss = [c for c in can if c[0] not in {x[0] for x in curk}]
+            extra = [x for x in curk if x[0] not in {c[0] for c in can}]
+            for new, old in pair(miss, extra, lambda m: m[1:], lambda x: x[1:]).items():
+                gmap[new] = old
+        if not (fmap or mmap or gmap):
+            return
+        qm = {r + '::' + new: r + '::' + old for (r, new), old in mmap.items()}
+        qm.update(gmap)
+        qf = {r + '::' + new: (r + '::' + old, old) for (r, new), old in fmap.items()}
+        self.renamed = {'methods': qm, 'fields': {k: v[0] for k, v in qf.items()}}
+
+        def rw(n):
+            if isinstance(n, list):
+                for x in n:
+                    rw(x)
+                return
+            if not isinstance(n, dict):
+                return
+            c = n.get('callee')
+            if isinstance(c, str) and c in qm:
+                n['callee'] = qm[c]
+            if n.get('k') == 'member' and n.get('q') in qf:
+                n['q'], n['name'] = qf[n['q']]
+            if n.get('k') == 'ref' and n.get('name') in qm and n.get('kind') not in ('var', 'param'):
+                n['name'] = qm[n['name']]
+            for v in n.values():
+                if isinstance(v, (dict, list)):
+                    rw(v)
+        for d in docs:
+            for f in d['functions']:
+                if f['name'] in qm:
+                    f['name'] = qm[f['name']]
+                f['overrides'] = [qm.get(o, o) for o in f.get('overrides', [])]
+                for i in f.get('inits', []) or []:
+                    if f.get('cls') and (f['cls'], i.get('member')) in fmap:
+                        i['member'] = fmap[(f['cls'], i['member'])]
+                rw(f.get('body'))
+                rw(f.get('inits'))
+            for r in d['records']:
+                for x in r.get('fields', []):
+                    if (r['name'], x['name']) in fmap:
+                        x['name'] = fmap[(r['name'], x['name'])]
+                    rw(x.get('init'))
+                for m in r.get('methods', []):
+                    if (r['name'], m.get('name')) in mmap:
+                        m['name'] = mmap[(r['name'], m['name'])]
+            for g in d['globals']:
+                rw(g.get('init'))
 
     # ---- lookup helpers -------------------------------------------------------------------
     def fn(self, qname, sig=None, required=True):
